@@ -364,6 +364,11 @@ class GridSearcher(StochasticSearcher):
             metric=self._metric,
             shuffle_config=self._shuffle_config,
         )
+        # The order in which the grid is enumerated is part of the immutable
+        # state (the constructor above has shuffled the grid with the default
+        # seed, but ``next_index`` refers to the order used so far)
+        new_searcher.hp_keys = self.hp_keys
+        new_searcher.hp_values_combinations = self.hp_values_combinations
         new_searcher._restore_from_state(state)
         return new_searcher
 
